@@ -42,6 +42,9 @@ def call(ex, st, fn, args, kw, node):
         raise Unsupported("isinstance %r %r" % (v, t))
     if name == "enumerate":
         start = args[1] if len(args) > 1 else kw.get("start", 0)
+        from .symexec import FallibleIter
+        if isinstance(args[0], FallibleIter):
+            yield st, FallibleIter(EnumerateOf(ex.as_ufl(st, args[0].seq), start), args[0].fail_at, args[0].raise_fn); return
         yield st, EnumerateOf(ex.as_ufl(st, args[0]), start); return
     if name == "repr" or name == "_compat.text_repr":
         yield st, Sym(STR, ex.to_str(st, args[0], "r")) if isinstance(args[0], Sym) else repr(args[0]); return
